@@ -461,4 +461,494 @@ example : TRefines (hrun xEnv xS0 (xOpsW.take 17)) (canon xEnv {} (hrun xEnv xS0
 -- the whole history, hypotheses asked of the operations that did not fail only
 example : Inv xEnv {} (hrun xEnv xS0 xOpsW) := chain_refines_kept xEnv {} xS0 xOpsW xEnvOK xInv0 (by decide)
 
+-- ====================================================================================================================
+--                              3. the ledger: histories of confirmations and truncations
+-- ====================================================================================================================
+
+/-- the operations of a ledger history -/
+inductive LOp where
+  | confirm (id pre : Nat) (txs : List (Nat × Bool))    -- `ConfirmBlock`; each transaction with its coinbase flag
+  | truncate (target : Nat)                              -- `Truncate`
+deriving Repr, DecidableEq
+
+def lstep (l : XV.Ledger.L) : LOp → XV.Ledger.L
+  | .confirm id pre txs => (XV.Ledger.confirm l id pre txs).1
+  | .truncate t => (XV.Ledger.truncate l t).1
+
+def lrun (l : XV.Ledger.L) (ops : List LOp) : XV.Ledger.L := ops.foldl lstep l
+
+/-- the operation reports failure on the ledger `l` -/
+def lopFails (l : XV.Ledger.L) : LOp → Bool
+  | .confirm id pre txs => (XV.Ledger.confirm l id pre txs).2 == .fail
+  | .truncate t => !(XV.Ledger.truncate l t).2
+
+theorem lstep_of_failed (l : XV.Ledger.L) (op : LOp) (h : lopFails l op = true) : lstep l op = l := by
+  cases op with
+  | confirm id pre txs =>
+    simp only [lopFails, beq_iff_eq] at h
+    exact confirm_fail_noop l id pre txs h
+  | truncate t =>
+    simp only [lopFails, Bool.not_eq_eq_eq_not, Bool.not_true] at h
+    exact truncate_fail_noop l t h
+
+/-- the sub-list of the ledger operations that did not fail when they were reached -/
+def ledgerLiveOps : XV.Ledger.L → List LOp → List LOp := keepG lstep lopFails
+
+/-- **ledger side: the failing operations of ANY list of confirmations and truncations can be deleted without changing the
+final tables** — whatever made them fail: block already stored, unknown parent, a second coinbase, a transaction that the
+main chain already contains below the fork point, a fork that cannot be resolved, an unknown truncation target -/
+theorem ledger_failed_ops_leave_no_trace (l : XV.Ledger.L) (ops : List LOp) :
+    lrun l ops = lrun l (ledgerLiveOps l ops) :=
+  foldl_keepG lstep lopFails lstep_of_failed ops l
+
+/-- `ops'` is the ledger history `ops` with failing operations inserted at any positions -/
+abbrev LedgerFailuresInserted : XV.Ledger.L → List LOp → List LOp → Prop := InsertedG lstep lopFails
+
+/-- … and failing operations can be inserted anywhere, in any number -/
+theorem ledger_failing_ops_insertable (l : XV.Ledger.L) (ops ops' : List LOp) (h : LedgerFailuresInserted l ops ops') :
+    lrun l ops' = lrun l ops :=
+  foldl_insertedG lstep lopFails lstep_of_failed l ops ops' h
+
+theorem ledger_failing_block_insertable (l : XV.Ledger.L) (A F B : List LOp)
+    (hF : ∀ f ∈ F, lopFails (lrun l A) f = true) : lrun l (A ++ F ++ B) = lrun l (A ++ B) :=
+  foldl_insert_block lstep lopFails lstep_of_failed A F B l hF
+
+theorem ledgerLiveOps_spec (l : XV.Ledger.L) (ops : List LOp) :
+    noneDropped lstep lopFails l (ledgerLiveOps l ops) = true ∧ LedgerFailuresInserted l (ledgerLiveOps l ops) ops ∧
+    ledgerLiveOps l (ledgerLiveOps l ops) = ledgerLiveOps l ops :=
+  ⟨keepG_noneDropped _ _ ops l, insertedG_keepG _ _ ops l, keepG_idem _ _ ops l⟩
+
+/-- every query of the ledger is answered the same in both runs: the raw tables, tip and height, `IsTxInTrunk`,
+`FindUndoAndTodoBlocks`, the path of every block, the line the driver prints for the ledger (`ledgerObs`), the verdict
+of any operation run next -/
+theorem ledger_failed_ops_unobservable (l : XV.Ledger.L) (ops : List LOp) :
+    let a := lrun l ops
+    let b := lrun l (ledgerLiveOps l ops)
+    (∀ {α : Type} (q : XV.Ledger.L → α), q a = q b) ∧
+    a.B = b.B ∧ a.ZH = b.ZH ∧ a.C = b.C ∧ a.ZI = b.ZI ∧ a.tip = b.tip ∧ a.trunkHeight = b.trunkHeight ∧
+    (∀ t, XV.Ledger.isTxInTrunk a t = XV.Ledger.isTxInTrunk b t) ∧
+    (∀ cur dest, XV.Ledger.findUndoTodo a cur dest = XV.Ledger.findUndoTodo b cur dest) ∧
+    (∀ x, XV.Ledger.pathOf a x = XV.Ledger.pathOf b x) ∧
+    (∀ d : XV.Drv.Chain.DS, XV.Drv.Chain.ledgerObs { d with l := a } = XV.Drv.Chain.ledgerObs { d with l := b }) ∧
+    (∀ op, lopFails a op = lopFails b op) := by
+  intro a b
+  have hab : a = b := ledger_failed_ops_leave_no_trace l ops
+  refine ⟨fun q => by rw [hab], ?_, ?_, ?_, ?_, ?_, ?_, fun _ => ?_, fun _ _ => ?_, fun _ => ?_, fun _ => ?_, fun _ => ?_⟩ <;>
+    rw [hab]
+
+-- example: on the ledger holding the root block 1, block 2 is confirmed; then five operations fail — block 2 again (already
+-- stored), a block with an unknown parent, a block with two coinbase transactions, a block that repeats transaction 21 of
+-- the main chain, a truncation to an unknown block —; block 3 arrives on a side branch, block 4 on top of it switches the
+-- trunk; block 4 again fails; truncation to block 3
+private def xL0 : XV.Ledger.L := XV.Ledger.genesis 1 [0]
+private def xLOps : List LOp := [
+  .confirm 2 1 [(20, true), (21, false)], .confirm 2 1 [(20, true), (21, false)], .confirm 9 8 [],
+  .confirm 6 2 [(60, true), (61, true)], .confirm 6 2 [(60, true), (21, false)], .truncate 7,
+  .confirm 3 1 [(30, true), (31, false)], .confirm 4 3 [(40, true), (41, false)], .confirm 4 3 [(40, true), (41, false)],
+  .truncate 3]
+
+example : ledgerLiveOps xL0 xLOps = [.confirm 2 1 [(20, true), (21, false)], .confirm 3 1 [(30, true), (31, false)],
+    .confirm 4 3 [(40, true), (41, false)], .truncate 3] := by decide
+example : (XV.Ledger.confirm (lrun xL0 (xLOps.take 4)) 6 2 [(60, true), (21, false)]).2 = .fail ∧
+    (XV.Ledger.confirm (lrun xL0 (xLOps.take 7)) 4 3 [(40, true), (41, false)]).2 = .succSwitch ∧
+    (lrun xL0 xLOps).tip = 3 ∧ (lrun xL0 xLOps).trunkHeight = 1 := by decide
+example : lrun xL0 xLOps = lrun xL0 [.confirm 2 1 [(20, true), (21, false)], .confirm 3 1 [(30, true), (31, false)],
+    .confirm 4 3 [(40, true), (41, false)], .truncate 3] := by
+  have h : ledgerLiveOps xL0 xLOps = [.confirm 2 1 [(20, true), (21, false)], .confirm 3 1 [(30, true), (31, false)],
+    .confirm 4 3 [(40, true), (41, false)], .truncate 3] := by decide
+  rw [← h]; exact ledger_failed_ops_leave_no_trace xL0 xLOps
+
+-- ====================================================================================================================
+--                              4. the node of the crash model: persisted image, storage write errors, restart
+-- ====================================================================================================================
+
+open XV.Crash
+
+/-- the operation reports failure on the node `n` -/
+def opFails (e : Env) (n : Node) : Op → Bool
+  | .submit i => (doTx e n.s (lh n) i).2 != .ok
+  | .confirm b => (XV.Ledger.confirm n.l (e.block b).id ((e.block b).pre.getD 0) (confirmArgs e b)).2 == .fail
+  | .play b => (play e n.s (lh n) (e.block b)).2 != .ok
+  | .playMiner b => (playForMiner e n.s (lh n) (e.block b)).2 != .ok
+  | .walk dest prune => !(walk e n.s (lh n) dest prune).2
+  | .truncate dest => !(XV.Ledger.truncate n.l dest).2
+
+def opIsWalk : Op → Bool
+  | .walk .. => true
+  | _ => false
+
+/-- a failing single-batch operation (everything but `walk`) -/
+def ndrop (e : Env) (n : Node) (op : Op) : Bool := opFails e n op && !opIsWalk op
+
+/-- **after a failed operation the persisted image is unchanged.** In the crash model the node IS its persisted image
+(`Node` = the tables of the ledger DB and of the state DB, nothing volatile); a failing submission, confirmation, play,
+miner play or truncation returns the very node, and the only element of its batch trace is that node: the one batch of
+the operation was not written -/
+theorem failed_op_image_unchanged (e : Env) (n : Node) (op : Op) (hf : opFails e n op = true)
+    (hw : opIsWalk op = false) : runOp e n op = n ∧ opTrace e n op = [n] := by
+  have h1 : runOp e n op = n := by
+    cases op with
+    | submit i =>
+      simp only [opFails, bne_iff_ne, ne_eq] at hf
+      show ({ n with s := (doTx e n.s (lh n) i).1 } : Node) = n
+      rw [doTx_fail_noop e n.s (lh n) i hf]
+    | confirm b =>
+      simp only [opFails, beq_iff_eq] at hf
+      show ({ n with l := (XV.Ledger.confirm n.l _ _ _).1 } : Node) = n
+      rw [confirm_fail_noop n.l _ _ _ hf]
+    | play b =>
+      simp only [opFails, bne_iff_ne, ne_eq] at hf
+      show ({ n with s := (play e n.s (lh n) (e.block b)).1 } : Node) = n
+      rw [play_fail_noop e n.s (lh n) _ hf]
+    | playMiner b =>
+      simp only [opFails, bne_iff_ne, ne_eq] at hf
+      show ({ n with s := (playForMiner e n.s (lh n) (e.block b)).1 } : Node) = n
+      rw [playForMiner_fail_noop e n.s (lh n) _ hf]
+    | walk dest prune => cases hw
+    | truncate dest =>
+      simp only [opFails, Bool.not_eq_eq_eq_not, Bool.not_true] at hf
+      show ({ n with l := (XV.Ledger.truncate n.l dest).1 } : Node) = n
+      rw [truncate_fail_noop n.l dest hf]
+  refine ⟨h1, ?_⟩
+  cases op with
+  | walk dest prune => cases hw
+  | submit i => show [runOp e n (.submit i)] = [n]; rw [h1]
+  | confirm b => show [runOp e n (.confirm b)] = [n]; rw [h1]
+  | play b => show [runOp e n (.play b)] = [n]; rw [h1]
+  | playMiner b => show [runOp e n (.playMiner b)] = [n]; rw [h1]
+  | truncate d => show [runOp e n (.truncate d)] = [n]; rw [h1]
+
+theorem runOp_of_ndrop (e : Env) (n : Node) (op : Op) (h : ndrop e n op = true) : runOp e n op = n := by
+  unfold ndrop at h
+  rw [Bool.and_eq_true] at h
+  exact (failed_op_image_unchanged e n op h.1 (by simpa using h.2)).1
+
+/-- **after a failed WALK the persisted image is the image after its completed batches**: no re-admission batch was
+written (the trace of the operation is the block-boundary part `walkMid`: roll-back, undone blocks, applied blocks), the
+ledger is untouched, the state is the last element of that trace, and it is the state `walk_fail_is_block_boundary`
+describes: prefixes `u`, `t` of the undo / apply lists replayed on the rolled-back state, nothing of the failing step -/
+theorem failed_walk_image (e : Env) (n : Node) (dest : Nat) (prune : Bool)
+    (hf : opFails e n (.walk dest prune) = true) :
+    opTrace e n (.walk dest prune) = (walkMid e n.s (lh n) dest prune).map (fun s => { n with s := s }) ∧
+    (runOp e n (.walk dest prune)).l = n.l ∧
+    (walkMid e n.s (lh n) dest prune).getLast? = some (runOp e n (.walk dest prune)).s ∧
+    (runOp e n (.walk dest prune)).s.pool = [] ∧
+    ∃ u t ru rt, (undoTodo e n.s.pointer dest).1 = u ++ ru ∧ (undoTodo e n.s.pointer dest).2 = t ++ rt ∧
+      (ru ≠ [] ∨ rt ≠ []) ∧
+      (runOp e n (.walk dest prune)).s = replayChain e t (undoRun e prune u (rolledBack e n.s)) := by
+  simp only [opFails, Bool.not_eq_eq_eq_not, Bool.not_true] at hf
+  have hc : (walkCore e n.s (lh n) dest prune).2 = false := by rw [← walk_ok_iff_core]; exact hf
+  have hrep : walkRepost e n.s (lh n) dest prune = [] := by
+    cases hr : walkRepost e n.s (lh n) dest prune with
+    | nil => rfl
+    | cons a r =>
+      have := (mem_walkRepost e n.s (lh n) dest prune a (by rw [hr]; exact List.mem_cons_self)).1
+      rw [hc] at this; cases this
+  have hw : (walk e n.s (lh n) dest prune).1 = (walkCore e n.s (lh n) dest prune).1 := by
+    rw [walk_eq_core, hc]; rfl
+  obtain ⟨u, t, ru, rt, h1, h2, h3, _, _, h6, h7, _⟩ := walk_fail_is_block_boundary e n.s (lh n) dest prune hf
+  refine ⟨?_, rfl, ?_, h7, u, t, ru, rt, h1, h2, ?_, h3⟩
+  · show (walkTrace e n.s (lh n) dest prune).map _ = _
+    unfold walkTrace
+    rw [hrep, List.append_nil]
+  · show _ = some (walk e n.s (lh n) dest prune).1
+    rw [hw]; exact walkMid_getLast e n.s (lh n) dest prune
+  · rcases h6 with ⟨_, b, r, hb, _⟩ | ⟨_, b, r, hb, _⟩
+    · left; rw [hb]; simp
+    · right; rw [hb]; simp
+
+/-- the sub-list of a node history without its failing single-batch operations -/
+def nodeKeptOps (e : Env) : Node → List Op → List Op := keepG (runOp e) (ndrop e)
+
+/-- **node histories: the failing submissions, confirmations, plays, miner plays and truncations of any history can be
+deleted (or inserted, in any number, anywhere) without changing the node the uninterrupted run ends in** -/
+theorem node_failed_ops_leave_no_trace (e : Env) (n : Node) (ops : List Op) :
+    run e n ops = run e n (nodeKeptOps e n ops) :=
+  foldl_keepG (runOp e) (ndrop e) (runOp_of_ndrop e) ops n
+
+theorem node_failing_ops_insertable (e : Env) (n : Node) (ops ops' : List Op)
+    (h : InsertedG (runOp e) (ndrop e) n ops ops') : run e n ops' = run e n ops :=
+  foldl_insertedG (runOp e) (ndrop e) (runOp_of_ndrop e) n ops ops' h
+
+/-- **… and they add no crash state**: whatever batch the process dies after, the image it leaves behind is one the
+history without the failing operations can leave behind too, and conversely -/
+theorem node_failed_ops_no_new_crash_state (e : Env) : ∀ (ops : List Op) (n x : Node),
+    x ∈ crashStates e n ops ↔ x ∈ crashStates e n (nodeKeptOps e n ops) := by
+  intro ops
+  induction ops with
+  | nil => intro n x; exact Iff.rfl
+  | cons op rest ih =>
+    intro n x
+    unfold nodeKeptOps at ih ⊢
+    by_cases hd : ndrop e n op = true
+    · rw [keepG_cons_drop _ _ n op rest hd, ← ih n x]
+      have hd' := hd
+      unfold ndrop at hd'
+      rw [Bool.and_eq_true] at hd'
+      obtain ⟨h1, h2⟩ := failed_op_image_unchanged e n op hd'.1 (by simpa using hd'.2)
+      have hcs : crashStates e n (op :: rest) = n :: (opTrace e n op ++ crashStates e (runOp e n op) rest) := rfl
+      rw [hcs, h1, h2]
+      obtain ⟨tl, htl⟩ := crashStates_head e n rest
+      constructor
+      · intro hx
+        rcases List.mem_cons.mp hx with rfl | hx
+        · rw [htl]; exact List.mem_cons_self
+        · rcases List.mem_append.mp hx with hx | hx
+          · simp only [List.mem_cons, List.not_mem_nil, or_false] at hx
+            rw [hx, htl]; exact List.mem_cons_self
+          · exact hx
+      · intro hx
+        exact List.mem_cons_of_mem _ (List.mem_append_right _ hx)
+    · rw [keepG_cons_keep _ _ n op rest hd]
+      have hcs : ∀ l, crashStates e n (op :: l) = n :: (opTrace e n op ++ crashStates e (runOp e n op) l) :=
+        fun _ => rfl
+      rw [hcs, hcs]
+      simp only [List.mem_cons, List.mem_append]
+      rw [ih (runOp e n op) x]
+
+-- ------------------------------------------------------------------ injected storage write errors
+
+/-- **the persisted image after an injected storage write error at write point `k` of an operation** (`FailAt` of the
+engine): the first `k` batches of the operation are written, the storage engine refuses batch `k` — a refused batch
+writes nothing (the engine contract, checked by the harness) — and the operation reports the error and stops. An
+operation with at most `k` batches has no write point `k` and completes -/
+def faultImage (e : Env) (n : Node) (op : Op) (k : Nat) : Node := ((opTrace e n op).take k).getLast?.getD n
+
+/-- the operation does reach write point `k` -/
+def faultHits (e : Env) (n : Node) (op : Op) (k : Nat) : Bool := k < (opTrace e n op).length
+
+theorem opTrace_single (e : Env) (n : Node) (op : Op) (hw : opIsWalk op = false) : opTrace e n op = [runOp e n op] := by
+  cases op with
+  | walk dest prune => cases hw
+  | submit i => rfl
+  | confirm b => rfl
+  | play b => rfl
+  | playMiner b => rfl
+  | truncate d => rfl
+
+/-- a write error at the first write point of ANY operation (for a walk: the roll-back batch) leaves the image as it was -/
+theorem fault_image_first_write (e : Env) (n : Node) (op : Op) : faultImage e n op 0 = n := rfl
+
+/-- **a write error in a submission, confirmation, play, miner play or truncation — at their one write point — leaves the
+persisted image unchanged** -/
+theorem fault_image_unchanged (e : Env) (n : Node) (op : Op) (k : Nat) (hw : opIsWalk op = false)
+    (hk : faultHits e n op k = true) : faultImage e n op k = n := by
+  unfold faultHits at hk
+  rw [opTrace_single e n op hw] at hk
+  simp only [List.length_cons, List.length_nil, Nat.zero_add, Nat.lt_one_iff, decide_eq_true_eq] at hk
+  rw [hk]; rfl
+
+/-- without a write point `k` the operation completes -/
+theorem fault_image_completed (e : Env) (n : Node) (op : Op) (k : Nat) (hk : faultHits e n op k = false) :
+    faultImage e n op k = runOp e n op := by
+  unfold faultHits at hk
+  simp only [decide_eq_false_iff_not, Nat.not_lt] at hk
+  unfold faultImage
+  rw [List.take_of_length_le hk, opTrace_getLast]
+  rfl
+
+/-- **a write error inside a walk leaves the image after its completed batches**: the ledger is untouched, the state is the
+one after the first `k` batches of the walk (`walkTrace`), the state before the walk when `k = 0` -/
+theorem fault_walk_image (e : Env) (n : Node) (dest : Nat) (prune : Bool) (k : Nat) :
+    faultImage e n (.walk dest prune) k =
+      { n with s := lastD ((walkTrace e n.s (lh n) dest prune).take k) n.s } := by
+  unfold faultImage opTrace lastD
+  rw [← List.map_take, List.getLast?_map]
+  cases ((walkTrace e n.s (lh n) dest prune).take k).getLast? <;> rfl
+
+/-- the image a write error leaves is the node before the operation or an element of its batch trace … -/
+theorem fault_image_mem (e : Env) (n : Node) (op : Op) (k : Nat) :
+    faultImage e n op k = n ∨ faultImage e n op k ∈ opTrace e n op := by
+  unfold faultImage
+  cases h : ((opTrace e n op).take k).getLast? with
+  | none => left; rfl
+  | some x => right; exact List.mem_of_mem_take (List.mem_of_getLast? h)
+
+theorem opTrace_mem_crashStates (e : Env) : ∀ (ops : List Op) (n : Node) (j : Nat) (op : Op), ops[j]? = some op →
+    ∀ x ∈ opTrace e (run e n (ops.take j)) op, x ∈ crashStates e n ops := by
+  intro ops
+  induction ops with
+  | nil => intro n j op h; simp at h
+  | cons o rest ih =>
+    intro n j op h x hx
+    cases j with
+    | zero =>
+      simp only [List.getElem?_cons_zero, Option.some.injEq] at h
+      subst h
+      unfold crashStates
+      exact List.mem_cons_of_mem _ (List.mem_append_left _ hx)
+    | succ j =>
+      rw [List.getElem?_cons_succ] at h
+      rw [List.take_succ_cons, run_cons] at hx
+      unfold crashStates
+      exact List.mem_cons_of_mem _ (List.mem_append_right _ (ih _ j op h x hx))
+
+/-- **… hence a crash state of the history**: a storage write error at any write point of any operation of any history
+leaves an image that a crash of the same history leaves too — everything C06 proves of crash states (block boundary,
+state and ledger invariants, the restart reaches the tables of the uninterrupted run) holds of it -/
+theorem fault_image_is_crash_state (e : Env) (n : Node) (ops : List Op) (j : Nat) (op : Op) (k : Nat)
+    (hj : ops[j]? = some op) : faultImage e (run e n (ops.take j)) op k ∈ crashStates e n ops := by
+  rcases fault_image_mem e (run e n (ops.take j)) op k with h | h
+  · rw [h]; exact run_take_mem_crashStates e ops n j
+  · exact opTrace_mem_crashStates e ops n j op hj _ h
+
+/-- histories with injected write errors: an operation runs to its end, or with a write error at write point `k` -/
+inductive FOp where
+  | run (op : Op)
+  | fault (op : Op) (k : Nat)
+deriving Repr, DecidableEq
+
+def fstep (e : Env) (n : Node) : FOp → Node
+  | .run op => runOp e n op
+  | .fault op k => faultImage e n op k
+
+def frun (e : Env) (n : Node) (ops : List FOp) : Node := ops.foldl (fstep e) n
+
+/-- the entries of such a history that leave no trace: a failing single-batch operation, a write error at the first write
+point of any operation, a write error "at" a later write point of a failing single-batch operation (it has none) -/
+def fdrop (e : Env) (n : Node) : FOp → Bool
+  | .run op => ndrop e n op
+  | .fault op k => k == 0 || ndrop e n op
+
+theorem fstep_of_fdrop (e : Env) (n : Node) (f : FOp) (h : fdrop e n f = true) : fstep e n f = n := by
+  cases f with
+  | run op => exact runOp_of_ndrop e n op h
+  | fault op k =>
+    simp only [fdrop, Bool.or_eq_true, beq_iff_eq] at h
+    rcases h with h | h
+    · rw [h]; rfl
+    · show faultImage e n op k = n
+      have hw : opIsWalk op = false := by
+        unfold ndrop at h; rw [Bool.and_eq_true] at h; simpa using h.2
+      by_cases hk : faultHits e n op k = true
+      · exact fault_image_unchanged e n op k hw hk
+      · rw [fault_image_completed e n op k (by simpa using hk)]; exact runOp_of_ndrop e n op h
+
+/-- **histories with failing operations AND injected storage write errors**: the entries that fail in a single batch —
+refused operations and write errors at a first write point — can be deleted (or inserted anywhere) without changing the
+persisted image the history ends with -/
+theorem fault_history_leaves_no_trace (e : Env) (n : Node) (ops : List FOp) :
+    frun e n ops = frun e n (keepG (fstep e) (fdrop e) n ops) :=
+  foldl_keepG (fstep e) (fdrop e) (fstep_of_fdrop e) ops n
+
+theorem fault_history_insertable (e : Env) (n : Node) (ops ops' : List FOp)
+    (h : InsertedG (fstep e) (fdrop e) n ops ops') : frun e n ops' = frun e n ops :=
+  foldl_insertedG (fstep e) (fdrop e) (fstep_of_fdrop e) n ops ops' h
+
+theorem frun_of_run (e : Env) (n : Node) (ops : List Op) : frun e n (ops.map .run) = run e n ops := by
+  unfold frun run
+  rw [List.foldl_map]
+  rfl
+
+-- ------------------------------------------------------------------ a running node answers like a reopened one
+
+/-- the state machine has caught up with the ledger: the resting point of the node between two rounds of its loop (a
+moment between `ConfirmBlock` and the play / walk that follows it is inside the processing of a block) -/
+def Synced (n : Node) : Prop := n.s.pointer = n.l.tip
+
+instance (n : Node) : Decidable (Synced n) := by unfold Synced; exact inferInstance
+
+/-- the restart in one formula: the reopened node is the node itself when it is synchronised, and otherwise the node after
+the synchronising walk — the very operation the RUNNING node performs next -/
+theorem reopen_is_next_sync (e : Env) (n : Node) :
+    (recover e n).1 = (if n.s.pointer = n.l.tip then n else runOp e n (.walk n.l.tip false)) ∧
+    (recover e n).1.l = n.l := by
+  unfold recover
+  by_cases h : n.s.pointer = n.l.tip
+  · rw [if_pos h, if_pos h]; exact ⟨rfl, rfl⟩
+  · rw [if_neg h, if_neg h]; exact ⟨rfl, rfl⟩
+
+/-- **a running node answers like a reopened one.** For every history of node operations run to completion — any number
+of failing operations included —, at a quiescent moment (`Synced`), the restart procedure applied to the persisted image
+of the node (in the crash model: the node, there is no volatile part) succeeds and returns that very node: every
+observation of the reopened node equals the running node's — every function of the node, in particular both lines the
+driver prints (`observe`, `ledgerObs`) and the pool —, and every continuation of the history gives the same node from the
+reopened instance as from the running one. (The statement is a fact about every synchronised node, reached by a history
+or not: the content of "running == reopened" for the IMPLEMENTATION, with its caches, is the correspondence of the
+cache-free model with the code after every operation, which the harness checks; see the header of `C05.lean`.) -/
+theorem quiescent_reopen_same (e : Env) (n : Node) (ops : List Op) (hq : Synced (run e n ops)) :
+    recover e (run e n ops) = (run e n ops, true) ∧
+    (∀ {α : Type} (q : Node → α), q (recover e (run e n ops)).1 = q (run e n ops)) ∧
+    (∀ d : XV.Drv.Chain.DS,
+      XV.Drv.Chain.observe { d with l := (recover e (run e n ops)).1.l, s := (recover e (run e n ops)).1.s } =
+        XV.Drv.Chain.observe { d with l := (run e n ops).l, s := (run e n ops).s } ∧
+      XV.Drv.Chain.ledgerObs { d with l := (recover e (run e n ops)).1.l } =
+        XV.Drv.Chain.ledgerObs { d with l := (run e n ops).l }) ∧
+    (∀ more, run e (recover e (run e n ops)).1 more = run e n (ops ++ more)) := by
+  have h : recover e (run e n ops) = (run e n ops, true) := by
+    have hq' : (run e n ops).s.pointer = (run e n ops).l.tip := hq
+    unfold recover; rw [if_pos hq']
+  refine ⟨h, fun q => by rw [h], fun d => by rw [h]; exact ⟨rfl, rfl⟩, fun more => ?_⟩
+  rw [h, run_append]
+
+/-- the same after a history with injected storage write errors -/
+theorem quiescent_reopen_same_faults (e : Env) (n : Node) (ops : List FOp) (hq : Synced (frun e n ops)) :
+    recover e (frun e n ops) = (frun e n ops, true) ∧
+    (∀ {α : Type} (q : Node → α), q (recover e (frun e n ops)).1 = q (frun e n ops)) := by
+  have h : recover e (frun e n ops) = (frun e n ops, true) := by
+    have hq' : (frun e n ops).s.pointer = (frun e n ops).l.tip := hq
+    unfold recover; rw [if_pos hq']
+  exact ⟨h, fun q => by rw [h]⟩
+
+/-- a failed operation does not move the node out of (or into) a quiescent moment, and the reopened node after it is the
+reopened node before it -/
+theorem failed_op_reopen_same (e : Env) (n : Node) (op : Op) (hf : opFails e n op = true) (hw : opIsWalk op = false) :
+    recover e (runOp e n op) = recover e n ∧ (Synced (runOp e n op) ↔ Synced n) := by
+  rw [(failed_op_image_unchanged e n op hf hw).1]
+  exact ⟨rfl, Iff.rfl⟩
+
+/-- the statement without the quiescence hypothesis: after EVERY history the reopened node shows the state of the running
+one -/
+def quiescent_reopen_same_statement : Prop :=
+  ∀ (e : Env) (n : Node) (ops : List Op), (recover e (run e n ops)).1.s.pointer = (run e n ops).s.pointer
+
+/-- **it is false**: between the confirmation of a block and its play the running node still shows the old tip, while the
+restart walks the state machine to the ledger tip first (`reopen_is_next_sync`). Witness: the node at the root block
+confirms block 2 -/
+theorem quiescent_reopen_same_needs_sync : ¬ quiescent_reopen_same_statement := by
+  intro h
+  have := h xEnv { l := XV.Ledger.genesis 1 [0], s := xS0 } [.confirm 2]
+  revert this
+  decide
+
+-- ------------------------------------------------------------------ examples for section 4
+/-- the node at the root block -/
+private def xN0 : Node := { l := XV.Ledger.genesis 1 [0], s := xS0 }
+/-- fourteen node operations, eight of which fail: a submission with a missing input, block 2 confirmed and played, block 2
+confirmed again (already stored), block 3 played on the wrong parent, 22 accepted, 22 again, a truncation to an unknown
+block, block 3 confirmed (side branch: the tip stays 2), a miner play of block 3 on the wrong parent, block 5 confirmed (the
+LEDGER takes it: it does not execute transactions) and played (refused in its middle), a walk to the new ledger tip 5 that
+fails (block 5 cannot be applied: the node stays at block 2 with the pool rolled back), 25 accepted -/
+private def xNOps : List Op := [.submit 24, .confirm 2, .play 2, .confirm 2, .play 3, .submit 22, .submit 22, .truncate 9,
+  .confirm 3, .playMiner 3, .confirm 5, .play 5, .walk 5 false, .submit 25]
+
+example : nodeKeptOps xEnv xN0 xNOps = [.confirm 2, .play 2, .submit 22, .confirm 3, .confirm 5, .walk 5 false,
+    .submit 25] := by decide
+example : opFails xEnv (run xEnv xN0 (xNOps.take 12)) (.walk 5 false) = true ∧
+    (run xEnv xN0 (xNOps.take 12)).s.pool = [22] ∧ (run xEnv xN0 (xNOps.take 13)).s.pool = [] ∧
+    (run xEnv xN0 (xNOps.take 13)).s.pointer = 2 ∧ (run xEnv xN0 xNOps).s.pool = [25] ∧
+    (run xEnv xN0 xNOps).l.tip = 5 := by decide
+-- quiescent moments of the history: after the first ten operations (six of them failed) the node is synchronised
+example : Synced (run xEnv xN0 (xNOps.take 10)) ∧ ¬ Synced (run xEnv xN0 (xNOps.take 2)) ∧
+    ¬ Synced (run xEnv xN0 xNOps) := by decide
+example : recover xEnv (run xEnv xN0 (xNOps.take 10)) = (run xEnv xN0 (xNOps.take 10), true) :=
+  (quiescent_reopen_same xEnv xN0 (xNOps.take 10) (by decide)).1
+-- write errors: in the play of block 2 (image unchanged: still at block 1), at write points 0, 1, 2 of a walk from block 2
+-- (pool [22]) to block 3 (image: untouched / pool rolled back at block 2 / block 2 undone, at block 1), and a write
+-- point the walk does not have (it completes: block 3, nothing re-admitted)
+example :
+    let m := run xEnv xN0 (xNOps.take 9)
+    faultHits xEnv (run xEnv xN0 [.confirm 2]) (.play 2) 0 = true ∧
+    (faultImage xEnv (run xEnv xN0 [.confirm 2]) (.play 2) 0).s.pointer = 1 ∧
+    (opTrace xEnv m (.walk 3 false)).length = 3 ∧
+    ((faultImage xEnv m (.walk 3 false) 0).s.pointer, (faultImage xEnv m (.walk 3 false) 0).s.pool) = (2, [22]) ∧
+    ((faultImage xEnv m (.walk 3 false) 1).s.pointer, (faultImage xEnv m (.walk 3 false) 1).s.pool) = (2, []) ∧
+    ((faultImage xEnv m (.walk 3 false) 2).s.pointer, (faultImage xEnv m (.walk 3 false) 2).s.pool) = (1, []) ∧
+    ((faultImage xEnv m (.walk 3 false) 3).s.pointer, (faultImage xEnv m (.walk 3 false) 3).s.pool) = (3, []) := by decide
+-- a history with refused operations and write errors; what is kept
+example : keepG (fstep xEnv) (fdrop xEnv) xN0
+      [.run (.submit 24), .run (.confirm 2), .fault (.play 2) 0, .run (.play 2), .fault (.submit 22) 0, .run (.play 3),
+        .fault (.submit 24) 3, .run (.submit 22), .fault (.walk 3 false) 0, .run (.confirm 3), .fault (.walk 3 false) 2] =
+    [.run (.confirm 2), .run (.play 2), .run (.submit 22), .run (.confirm 3), .fault (.walk 3 false) 2] := by decide
+
 end XV.C05
